@@ -2,7 +2,10 @@
 // substitutes for the real (non-interpretable) implementation.
 package models
 
-import "context"
+import (
+	"context"
+	"sync"
+)
 
 type strErr struct{ s string }
 
@@ -96,3 +99,48 @@ func ErrorsIs(err, target error) bool {
 
 // NotConnReset models drpcmanager.isConnectionReset for harness errors (never *net.OpError).
 func NotConnReset(err error) bool { return false }
+
+// cancelCtx models context.WithCancel: a child that is cancelled by its cancel func or
+// when the parent is done (propagation by a watcher goroutine, as the stdlib does for
+// foreign parent types).
+type cancelCtx struct {
+	context.Context
+	mu   sync.Mutex
+	done chan struct{}
+	err  error
+}
+
+func (c *cancelCtx) Done() <-chan struct{} { return c.done }
+
+func (c *cancelCtx) Err() error {
+	c.mu.Lock()
+	defer c.mu.Unlock()
+	return c.err
+}
+
+func (c *cancelCtx) cancel(err error) {
+	c.mu.Lock()
+	defer c.mu.Unlock()
+	if c.err != nil {
+		return
+	}
+	c.err = err
+	close(c.done)
+}
+
+func WithCancel(parent context.Context) (context.Context, context.CancelFunc) {
+	c := &cancelCtx{Context: parent, done: make(chan struct{})}
+	if pd := parent.Done(); pd != nil {
+		go func() {
+			select {
+			case <-pd:
+				c.cancel(parent.Err())
+			case <-c.done:
+			}
+		}()
+	}
+	return c, func() { c.cancel(context.Canceled) }
+}
+
+// NotTemporary models drpcserver.isTemporary for harness errors (none implements Temporary()).
+func NotTemporary(err error) bool { return false }
